@@ -8,10 +8,10 @@ import _checker_common as K
 
 ANN_POOL = ['int', 'int', 'str', 'float', 'bool', 'List[int]', 'list[int]', 'Dict[str, int]', 'Optional[int]', 'Union[int, str]',
             'Tuple[int, str]', 'Tuple[int, ...]', 'Set[int]', 'P', 'Any', 'Iterable[int]', 'Iterable[int]', 'Optional[Iterable[int]]', 'Sequence[str]', 'int | None',
-            'Literal[1, 2]', 'Type[P]', 'None', "'P'", "List['C1']", "Optional['P']", "List['CQ']"]
+            'Literal[1, 2]', 'Type[P]', 'None', "'P'", "List['C1']", "Optional['P']", "List['CQ']", "Literal['{}', '{x}']"]
 DOC_POOL = ['int', 'str', 'float', 'bool', 'List[int]', 'Dict[str, int]', 'Optional[int]', 'Union[int, str]']
 BARE_POOL = ['list', 'List', 'dict', 'Dict', 'set', 'Set', 'frozenset', 'FrozenSet', 'tuple', 'Tuple', 'type', 'Type', 'Callable', 'Iterable', 'Sequence']
-RET_POOL = ['int', 'str', 'None', 'None', 'List[int]', 'Optional[int]', 'P', 'Any', 'bool', 'Tuple[int, str]']
+RET_POOL = ['int', 'str', 'None', 'None', 'List[int]', 'Optional[int]', 'P', 'Any', 'bool', 'Tuple[int, str]', "Literal['{}', '{x}']", "Literal['{', 1]"]
 NEEDLES = [None] * 6 + ['*args', '@staticmethod', '@pedantic', '@{name}.setter', 'mail me: a@b.c', '**kwargs', '@require_kwargs']
 PRELUDE = '''from typing import *
 from functools import wraps
@@ -100,8 +100,8 @@ def gen_callable(r, idx, profile='mixed'):
             seen_default = True
             dflt = lit_src(r, ann)[0] if ann is not None else '5'
         pname = f'p{i}'
-        if r.random() < 0.08 and kind not in ('class_class',):      # cls / args / kwargs used as ordinary parameter names
-            cand = [n for n in ('cls', 'args', 'kwargs', 'context', 'func', 'f', 'call', 'value', 'type_', 'err', 'key', 'result') if n not in [q[0] for q in params]]
+        if r.random() < (0.25 if profile == 'incomplete' else 0.08) and kind not in ('class_class',):      # cls / args / kwargs used as ordinary parameter names
+            cand = [n for n in ('cls', 'cls', 'cls', 'args', 'kwargs', 'context', 'func', 'f', 'call', 'value', 'type_', 'err', 'key', 'result', 'instance', 'klass') if n not in [q[0] for q in params]]
             if cand:
                 pname = r.choice(cand)
         params.append((pname, ann, dflt))
@@ -207,6 +207,13 @@ def gen_callable(r, idx, profile='mixed'):
             decos = {'none': ['@pedantic'], 'outer': ['@passthru', '@pedantic'], 'inner': ['@pedantic', '@passthru']}[stack]
             m = ''.join('    ' + x + '\n' for x in decos) + f"    {d} {name}({sig('self')}){retann}:\n" + body('        ')
             tm = ''.join('    ' + x + '\n' for x in decos if x == '@passthru') + f"    {d} {name}({sig('self')}){retann}:\n" + body('        ')
+            # the truth value / length of the receiver is the user's business: instances that are falsy, or whose __len__ / __bool__
+            # are decorated themselves
+            extra = r.choice([None] * 5 + ['len0', 'len_ped', 'bool_false', 'bool_ped'])
+            if extra:
+                em = {'len0': '    def __len__(self):\n        return 0\n', 'len_ped': '    @pedantic\n    def __len__(self) -> int:\n        return 2\n',
+                      'bool_false': '    def __bool__(self):\n        return False\n', 'bool_ped': '    @pedantic\n    def __bool__(self) -> bool:\n        return True\n'}[extra]
+                m += em; tm += em.replace('    @pedantic\n', '')
             access = [('inst', cls, name)]
         elif kind in ('bound_direct', 'bound_rk'):
             # the decorator is applied to a BOUND method object: `b = pedantic(obj.method)`
